@@ -340,9 +340,14 @@ def val_np(spec):
 def val_array(spec, container="np", index=None, splits=None):
     import pandas as pd
 
-    base = val_np(spec)
     name = spec.get("name")
     tz = spec.get("tz")
+    if container in ARROW_FAMILY and spec.get("arrow_nulls") and np.dtype(spec["dtype"]).kind in "fiub":
+        # logical nulls as Arrow nulls (also for integers and booleans, which numpy cannot express)
+        import pyarrow as pa
+
+        return pour_arrow(pa.array(spec["vals"], type=pa.from_numpy_dtype(np.dtype(spec["dtype"]))), container, index=index, name=name, splits=splits)
+    base = val_np(spec)
     if tz:
         # tz-aware values exist only in pandas / arrow containers
         ser = pd.Series(base, index=index, name=name).dt.tz_localize("UTC").dt.tz_convert(tz)
